@@ -4,6 +4,7 @@ import (
 	"errors"
 	"fmt"
 	"regexp"
+	"sort"
 	"strings"
 	"time"
 
@@ -150,7 +151,10 @@ func (r *runner) bad(key, f string, a ...interface{}) *mon.Result {
 
 // opFailed judges an error of an operation that had to succeed. Only if every byte the device
 // generated (minus what the model deliberately withholds) was delivered is it the library's doing.
-func (r *runner) opFailed(where string, err error) *mon.Result {
+func (r *runner) opFailed(where string, err error) *mon.Result { return r.opFailedAt(where, where, err) }
+
+// opFailedAt: keyWhere goes into the class key, where into the complaint.
+func (r *runner) opFailedAt(keyWhere, where string, err error) *mon.Result {
 	if mon.LoadedSince(r.t0) {
 		return &mon.Result{Verdict: mon.Inconclusive, Detail: fmt.Sprintf("%s failed under load: %v", where, err)}
 	}
@@ -160,7 +164,7 @@ func (r *runner) opFailed(where string, err error) *mon.Result {
 	if del := r.conn.Delivered(); del < gen-hold {
 		return &mon.Result{Verdict: mon.Inconclusive, Detail: fmt.Sprintf("%s failed with %d of %d bytes delivered: %v", where, del, gen-hold, err)}
 	}
-	return r.bad("c12/error:"+errClass(err)+":"+where, "%s returned %v although the device had delivered everything it will say before the next input (%d bytes)", where, err, gen-hold)
+	return r.bad("c12/error:"+errClass(err)+":"+keyWhere, "%s returned %v although the device had delivered everything it will say before the next input (%d bytes)", where, err, gen-hold)
 }
 
 func (r *runner) open(extra ...util.Option) *mon.Result {
@@ -244,10 +248,11 @@ func (r *runner) plain(c Cmd, where string) *mon.Result {
 		}
 	}
 	if err != nil {
+		kw := "plain"
 		if c.Eager {
-			where += ":eager"
+			kw += ":eager"
 		}
-		return r.opFailed(where, err)
+		return r.opFailedAt(kw, where, err)
 	}
 	log := r.conn.Log()
 	ws := writesOf(log, from, len(log))
@@ -824,6 +829,7 @@ func uniq(s []string) []string {
 			o = append(o, x)
 		}
 	}
+	sort.Strings(o)
 	return o
 }
 
